@@ -12,7 +12,7 @@ ID = 'C05'
 LEVEL = 'exploration'
 RULE = ('Hypothesis draws configuration and a history heavy on end causes - client CLOSE (POST or '
         'frame), server disconnect(sid) / disconnect(), heartbeat silence, WebSocket closed or '
-        'failed, poll timeout, protocol errors - injected one after another or inside the same '
+        'failed, poll timeout, protocol errors, a message handler that itself calls disconnect(sid) - injected one after another or inside the same '
         'unsettled step (simultaneous), with connect-handler outcomes (accept, False, 0, text, '
         'dict, list, raise), message/disconnect handler exceptions and requests/frames after the '
         'end; handlers may take virtual time (the event is logged when the handler starts, further causes arrive while it runs); polling clients may be JSONP / compressed-answer clients. Oracle: per session the handler log matches connect (message)* disconnect?, at most '
@@ -60,6 +60,12 @@ def explicit_causes(ex, s):
             continue
         if refusal(ex, s, u, limit):
             out.append((e['t'], e.get('step'), 'protocol', e.get('det')))
+            continue
+        if u['eff'][0] == 'open' and u['kind'] == 'post':
+            # the reference does not decide how this body reads (e.g. base64 with stray
+            # characters): it may have carried a CLOSE or counted as a protocol error
+            out.append((e['t'], e.get('step'), 'close', None))
+            out.append((e['t'], e.get('step'), 'protocol', None))
             continue
         if u['eff'][0] != 'ok':
             if u['kind'] == 'frame':
@@ -150,6 +156,8 @@ def monitor(ex, final):
                 continue
             if ex.world.app_log.busy:
                 continue        # a handler is still taking its time: the unit is not done yet
+            if any(c.get('in_handler') for c in s.causes):
+                continue        # the message handler called disconnect(sid) as well
             if t > fresh_until(ex, s, t):
                 continue
             if cause == 'protocol' and not proto_must_end(ex, s, step):
@@ -179,6 +187,12 @@ def monitor(ex, final):
                         'handler-raised' if faulted else 'handler-ok',
                         'session %d got its disconnect event but transport() still answers %r '
                         '(exc %r)' % (s.ord, c.result, c.exc))
+        for c in s.causes:
+            # disconnect(sid) called by the message handler and returned: the session has ended
+            if c.get('in_handler') and c['call'].done and c['call'].exc is None and nd == 0:
+                raise V(ex, 'end-cause-without-disconnect-event', 'api|from-message-handler',
+                        'session %d: its message handler called disconnect(sid), which returned, '
+                        'but no disconnect event was delivered' % s.ord)
         if final and nd == 0:
             must = [c for c in causes if c[3] and c[3]['live'] and c[3]['settled_after']
                     and c[2] in ('close', 'api', 'ws-close', 'ws-fail')]
@@ -247,6 +261,8 @@ PROFILE = {
                 'ws_fail': 2, 'ws_soft_fail': 3, 'pong': 1, 'app_send': 3, 'app_disconnect': 4, 'advance': 4,
                 'fault': 2, 'vanish': 1},
     'max_sessions': 3,
+    # messages whose handler itself calls disconnect(sid) (or sends a reply) before returning
+    'reactions': [('bye', 15), ('echo', 10)],
     'packet_kinds': [('msg', 4), ('pong', 1), ('close', 3), ('upgrade', 1), ('bad', 1)],
     'post_modes': [('pkts', 10), ('raw', 1)],
     'config': {'http_compression': st.sampled_from([True, False]),
@@ -261,7 +277,7 @@ PROFILE = {
     'connect_outcomes': [None, None, None, None, None, ['ret', rm.tag(False)],
                          ['ret', rm.tag(0)], ['ret', rm.tag('no')], ['ret', rm.tag({'e': 1})],
                          ['ret', rm.tag([1])], ['raise'], ['raise', 'TypeError'], ['ret', rm.tag(True)],
-                         ['ret', rm.tag('')]],
+                         ['ret', rm.tag('')], ['ret', {'t': 'unjson'}]],
     'disconnect_all_pct': 2,
     'world_kw_st': st.fixed_dictionaries({
         'legacy_disconnect': st.sampled_from([False, False, True, 'varargs']),
@@ -294,6 +310,9 @@ def summarize(ex):
             cls.add('cause-' + c[2])
         if s.vanished:
             cls.add('cause-vanish')
+        if any(c.get('in_handler') for c in s.causes):
+            cls.add('disconnect-called-by-message-handler')
+            nt = True
         if not s.expect_accept:
             cls.add('rejected-session')
         evs = ex.events_for(s)
